@@ -18,7 +18,7 @@ RULE = ("class shapes = base class + registered subclass with members of every k
         "non-trivial = the name is a member of the shape or a variant of one")
 ASSUMPTIONS = ["classes with their own __getattr__/metaclass tricks are outside the quantifier", "'refused' = an exception reply of any type (no reply for oneway)",
                "a call-kind request naming an *exposed* property may run that property's getter before being refused"]
-REQUIRED_REACH = ["surplus_argument_requests", "served_ok", "refused_ok", "oneway_checked", "metadata_checked", "nonstring_names", "decoration_refusals"]
+REQUIRED_REACH = ["surplus_argument_requests", "served_ok", "refused_ok", "oneway_checked", "metadata_checked", "nonstring_names", "decoration_refusals", "reregistrations_on_live_connection"]
 SHARD_TIMEOUT = {"quick": 240, "thorough": 2800}
 
 RESERVED = ["__init__", "__init_subclass__", "__class__", "__module__", "__weakref__", "__call__", "__new__", "__del__", "__repr__", "__str__",
@@ -448,6 +448,47 @@ def run_shape(fx, shape, sername, rec, r, light=False):
                 source, tuple(sorted(s) for s in got), (sorted(exp_m), sorted(exp_a), sorted(exp_o)), diff), dict(payload_base, name="<metadata>", kind=source))
         else:
             rec.count("metadata_checked")
+    # ---- the id changes hands while this connection stays open: it is unregistered, then registered for another object. What the peer's
+    #      names denote is decided by what is registered under the id at the time of the request
+    served = [(kind, name) for name in names if isinstance(name, str) for kind in ("call", "getattr", "setattr")
+              if (model.served_call(name) if kind == "call" else model.served_read(name) if kind == "getattr" else model.served_write(name))][:6]
+    if served and sess.c is not None:
+        pay = dict(payload_base, name="<re-registration>", kind="lifecycle")
+        rec.case((shape_h, "lifecycle", sername, fx.servertype), nontrivial=True)
+        fx.daemon.unregister("target")
+        bad = None
+        for kind, name in served:
+            del LOG[:]
+            outcome, detail = do_request(sess, kind, name, rec)
+            if outcome == "served" or norm_log(LOG):
+                bad = ("unexposed-member-served", "the id was unregistered, yet a %s request for %r on the connection that was open all along was %s; code that ran: %r" % (
+                    kind, name, outcome, norm_log(LOG)))
+                break
+
+        @P.server.expose
+        class Successor(object):
+            def zz_successor_only(self, *a):
+                SUCC.append(("zz_successor_only", a))
+                return "r:zz"
+        SUCC = []
+        if not bad:
+            fx.daemon.register(Successor(), "target", force=True)
+            for kind, name in served:
+                del LOG[:]
+                outcome, detail = do_request(sess, kind, name, rec)
+                if outcome == "served" or norm_log(LOG):
+                    bad = ("unexposed-member-served", "the id now denotes another object (exposing only 'zz_successor_only'), yet a %s request for %r on the connection that was open all along was %s; "
+                           "code of the former object that ran: %r" % (kind, name, outcome, norm_log(LOG)))
+                    break
+            if not bad:
+                outcome, detail = do_request(sess, "call", "zz_successor_only", rec)
+                if outcome != "served" or SUCC != [("zz_successor_only", ("A1",))]:
+                    bad = ("exposed-member-not-served", "the id now denotes another object; a call of its exposed 'zz_successor_only' on the connection that was open all along: outcome=%s log=%r" % (outcome, SUCC))
+            fx.daemon.unregister("target")
+        if bad:
+            rec.violation(bad[0], bad[1], pay)
+        else:
+            rec.count("reregistrations_on_live_connection")
     sess.drop()
     rec.count("reconnects", sess.reconnects)
 
